@@ -186,6 +186,15 @@ def run(ctx: RunCtx) -> None:
 
                 cl.external_config = ExternalLocationConfig(storage=None)
                 cl.workers[0].build()
+            if sticky and ch.choose(3, "drained") == 1:
+                # state the worker can be in while its CONFIGURATION is unchanged: draining (operator drain / SIGTERM).  The
+                # headers advertise the configuration, so they must not change with it
+                from vgi_rpc.http.server._sticky import drain_handle
+
+                h_ = drain_handle(cl.workers[0].app)
+                if h_ is not None:
+                    h_.drain()
+                    ch.fault("worker-draining")
             A = {"X-Auth": "ok"} if has_auth else {}
             CT = {"Content-Type": M.ARROW_CT}
             seen: set[str] = set()
